@@ -807,3 +807,87 @@ func vhDiagLess(a, b diagnostics.ResolvedDiagnostic) bool {
 
 func vh_C10_front_accept_Q()      { vhC10C18Front(false) }
 func vh_C18_front_diagnostics_Q() { vhC10C18Front(true) }
+
+// ---- C13 through the front end: a controller spread over several files, two controllers, imported model types;
+// two analyses under arbitrary map iteration orders give the same metadata in the same order
+var vhFrontSplitNames = []string{"a.go", "b.go", "c.go"}
+var vhFrontSplitSrcs = []string{`package ctl
+
+import "github.com/gopher-fleece/runtime"
+
+type Item struct {
+	Name string
+}
+
+// @Route(/z)
+type Zed struct {
+	runtime.GleeceController
+}
+
+// @Method(GET)
+// @Route(/a1)
+func (c *Zed) A1() (Item, error) { return Item{}, nil }
+`, `package ctl
+
+import "github.com/gopher-fleece/runtime"
+
+type Other struct {
+	N int
+}
+
+// @Route(/y)
+type Why struct {
+	runtime.GleeceController
+}
+
+// @Method(GET)
+// @Route(/b1)
+func (c *Zed) B1() (Other, error) { return Other{}, nil }
+
+// @Method(POST)
+// @Route(/b2)
+// @Body(o)
+func (c *Why) B2(o Other) error { return nil }
+`, `package ctl
+
+// @Method(GET)
+// @Route(/c1)
+func (c *Zed) C1() error { return nil }
+
+// @Method(GET)
+// @Route(/c2)
+func (c *Why) C2() (Item, error) { return Item{}, nil }
+`}
+
+func vh_C13_front_two_runs_Q() {
+	symxNoWitnessReplay()
+	rounds := 1
+	if !symxIsSymbolic() {
+		rounds = 10 // natively the order is the runtime's random choice: repeat
+	}
+	same := true
+	for r := 0; r < rounds; r++ {
+		var flats [][]string
+		for k := 0; k < 2; k++ {
+			fr, err := visitors.VhLoadSources(vhFrontSplitNames, vhFrontSplitSrcs, nil)
+			symxAssert(err == nil, "C13.front.fixture-loads")
+			if err != nil {
+				return
+			}
+			p := pipeline.VhNewPipeline(fr, vhFrontConfig())
+			symxPermuteMapsTwoOrders(k == 1) // the first analysis is the reference; in the second every map is iterated forwards or backwards
+			meta, err := p.Run()
+			symxPermuteMaps(false)
+			symxAssert(err == nil, "C13.front.project-is-accepted")
+			if err != nil {
+				return
+			}
+			flats = append(flats, vhFlattenMeta(meta))
+		}
+		if !vhSameStrings(flats[0], flats[1]) {
+			same = false
+		}
+	}
+	symxCover("C13.front.two-runs-compared")
+	symxAssert(same, "C13.front.two-analyses-give-the-same-metadata-in-the-same-order")
+}
